@@ -274,6 +274,17 @@ def rule_display_fields(prog):
         read = set(f["name"] for f in hir.nodes(b["body"], "Field") if (place(f["base"]) or "").startswith("self#"))
         out.add("Display for " + last(st), "signature shows %s" % sorted(want[st]), want[st] <= read, c.loc(b["sp"]),
                 "fields read: %s — a signature that omits the reference marker, the name or the type does not tell the truth" % sorted(read))
+        # ... on every path: each `write!` of the impl prints all of them (an arm that prints less shows some entries without name/kind)
+        writes = [x for x in hir.nodes(b["body"], "MethodCall") if x["m"] == "write_fmt"]
+        if len(writes) > 1:
+            for wi, w_ in enumerate(writes):
+                rd = set(f["name"] for f in hir.nodes(w_, "Field") if (place(f["base"]) or "").startswith("self#"))
+                # values bound earlier from self fields (match scrutinee / lets) count when the write uses the binding
+                txt = " ".join(hir.format_text(w_))
+                okw = (want[st] - {"data_type"}) <= rd and (st not in kind_word or kind_word[st] in txt)
+                out.add("Display for " + last(st), "every branch of the signature shows %s" % sorted(want[st] - {"data_type"}), okw, c.loc(w_["sp"]),
+                        "one `write!` of the impl reads only %s (text %r): the entries that take this branch are shown without their name / kind"
+                        % (sorted(rd), txt[:40]), ("branch",))
         if st in kind_word:
             lits = " ".join(hir.format_text(b["body"]))
             out.add("Display for " + last(st), "signature names the kind (`%s`)" % kind_word[st], kind_word[st] in lits, c.loc(b["sp"]),
@@ -1143,6 +1154,18 @@ def rule_not_a_kind(prog):
 
 # ------------------------------------------------------------------ POSITION-TOKEN
 
+def _text_range_skips_comments(prog):
+    """does AstInfo::to_text_range start behind the leading comments of a node (D26c)?"""
+    fc = prog.front
+    for b_ in fc.bodies:
+        if b_["d"] == "<ast::AstInfo as ToTextRange>::to_text_range":
+            for x in hir.nodes_deep(prog, b_["body"], 1, crate=fc):
+                pats = [a_["pat"] for a_ in x["arms"]] if x.get("k") == "Match" else [x["pat"]] if x.get("k") == "LetExpr" else []
+                if any("spl_frontend::tokens::TokenType::Comment" in hir.pat_variants_all(pt) for pt in pats):
+                    return True
+    return False
+
+
 def rule_position_token(prog):
     """Completion classifies the syntactic position of the cursor by the kind of the token in front of it (`:` -> type position,
     `;` / `{` -> statement start ...).  Comments may stand in every token gap, so the token that decides must be the last one in front
@@ -1199,9 +1222,42 @@ def rule_position_token(prog):
                 continue
             m += 1
             # direct form `stmt.to_text_range(tokens).contains(&position)`: the whole token range, comments included
-            direct = any(hir.strip(x["recv"]).get("k") == "MethodCall" and hir.strip(x["recv"])["m"] == "to_text_range" for x in cont)
-            ok = (not direct) and tests_comment(clo["body"], c)
-            out.add(b["d"], "the comments in front of a statement do not count as the statement when the cursor is located", ok if (direct or tests_comment(clo["body"], c)) else None,
+            # (since AstInfo::to_text_range starts behind the leading comments itself, the plain `to_text_range(..).contains(..)` is right)
+            direct = any(hir.strip(x["recv"]).get("k") == "MethodCall" and hir.strip(x["recv"])["m"] == "to_text_range" for x in cont) and \
+                not _text_range_skips_comments(prog)
+            # ... or from the first token of the statement's slice as it is
+            cdefs = {}
+            for l_ in hir.nodes(clo["body"], "Let"):
+                if l_["pat"].get("k") == "Binding" and l_.get("init") is not None:
+                    cdefs[l_["pat"]["id"]] = l_["init"]
+
+            def range_sources(e, depth=0):
+                yield e
+                if depth < 3:
+                    for y in hir.nodes(e):
+                        pl_ = hir.path_local(y)
+                        if pl_ and pl_["id"] in cdefs:
+                            for z in range_sources(cdefs[pl_["id"]], depth + 1):
+                                yield z
+            first_used = any(y.get("k") == "MethodCall" and y["m"] in ("first", "split_first") and "Token" in c.tstr(hir.strip(y["recv"])["t"])
+                             for x in cont for r_ in range_sources(x["recv"]) for y in hir.nodes(r_))
+            # the start of the tested range must come out of a comment test; `tokens.first()` as it is starts at the leading comments
+            start_skips = any(tests_comment(r_, c) for x in cont for r_ in range_sources(x["recv"]))
+            if first_used and not start_skips:
+                direct = True
+            elif first_used and start_skips:
+                # both forms present: look at what feeds the *start* only
+                for x in cont:
+                    rv = hir.strip(x["recv"])
+                    rng = rv if rv.get("k") == "Struct" else hir.strip(rv.get("e", {})) if rv.get("k") == "Paren" else rv
+                    if rng.get("k") == "Struct" and "Range" in (rng.get("adt") or ""):
+                        f_ = {q["name"]: q["e"] for q in rng["fields"]}
+                        if "start" in f_ and not any(tests_comment(r_, c) for r_ in range_sources(f_["start"])) and \
+                                any(y.get("k") == "MethodCall" and y["m"] in ("first", "split_first") for r_ in range_sources(f_["start"]) for y in hir.nodes(r_)):
+                            direct = True
+            ok = (not direct) and (tests_comment(clo["body"], c) or _text_range_skips_comments(prog))
+            out.add(b["d"], "the comments in front of a statement do not count as the statement when the cursor is located",
+                    ok if (direct or tests_comment(clo["body"], c) or _text_range_skips_comments(prog)) else None,
                     c.loc(cont[0]["sp"]), "`stmt.to_text_range(tokens).contains(&position)`: a cursor behind a comment line and in front of the next "
                     "statement is taken to be inside that statement, so a statement start gets the proposals of the statement's interior (none)",
                     ("comment", "stmt"))
